@@ -18,8 +18,8 @@ struct Sys {
 }
 
 impl Sys {
-    fn new() -> Sys {
-        let (tx, rx) = byte_channel(NonZeroUsize::new(1 << 20).unwrap());
+    fn new(cap: usize) -> Sys {
+        let (tx, rx) = byte_channel(NonZeroUsize::new(cap.max(1)).unwrap());
         let mut out = CommandOutputSim::new(Uuid::from_u128(7));
         out.set_writer(tx);
         Sys { out, reader: FramedRead::new(rx, Default::default()), lent: None }
@@ -62,11 +62,25 @@ impl Sys {
             ["write"] => match self.out.write() {
                 None => "none".into(),
                 Some(fut) => {
-                    let res = futures::executor::block_on(fut);
+                    // the channel may be far smaller than the burst: the remote end reads while the write is in
+                    // progress (frames decoded meanwhile are kept in order)
+                    let mut fut = Box::pin(fut);
+                    let mut early: Vec<String> = vec![];
+                    let res = futures::executor::block_on(async {
+                        loop {
+                            tokio::select! {
+                                biased;
+                                r = &mut fut => break r,
+                                _ = tokio::task::yield_now() => {}
+                            }
+                            early.extend(self.frames());
+                        }
+                    });
                     match res {
                         Ok(h) => {
                             self.lent = Some(h);
-                            let f = self.frames();
+                            let mut f = early;
+                            f.extend(self.frames());
                             format!("sent {}", if f.is_empty() { "-".to_string() } else { f.join(",") })
                         }
                         Err(_) => "write-error".into(),
@@ -88,8 +102,9 @@ impl Sys {
 fn run_case(t: &mut Trace, ops: &[String]) {
     let mut sys: Option<Sys> = None;
     for op in ops {
-        if op == "new" {
-            sys = Some(Sys::new());
+        if op == "new" || op.starts_with("new ") {
+            let cap = op.split_whitespace().nth(1).and_then(|c| c.parse().ok()).unwrap_or(1 << 20);
+            sys = Some(Sys::new(cap));
             t.op(op, "ok");
         } else if let Some(s) = sys.as_mut() {
             let o = s.exec(op);
@@ -106,7 +121,8 @@ fn main() {
             let mut t = Trace::create(&out);
             let mut rng = Rng::new(seed);
             for c in 0..cases {
-                let mut ops = vec!["new".to_string()];
+                // one case in three uses an outgoing channel far smaller than a burst of commands
+                let mut ops = vec![if rng.chance(1, 3) { format!("new {}", rng.range(8, 96)) } else { "new".to_string() }];
                 let nt = rng.range(1, 3);
                 let len = rng.range(2, 30);
                 let mut id = 0;
